@@ -247,6 +247,15 @@ int main(int argc, char **argv) {
     long total = atol(argv[2]); char *m = malloc(total); if (!m) _exit(97);
     for (long i = 0; i < total; i += 4096) m[i] = 1;
     _exit(m[total / 2] == 1 ? 0 : 0);
+  } else if (!strcmp(c, "memfault") || !strcmp(c, "spinfault")) {
+    // goes beyond a bound (memory touched / CPU time burnt), then dies of a real fault
+    long v = atol(argv[2]);
+    if (!strcmp(c, "memfault")) { char *m = malloc(v); if (!m) _exit(97); for (long i = 0; i < v; i += 4096) m[i] = 1; }
+    else { struct timespec t0, t1; clock_gettime(CLOCK_PROCESS_CPUTIME_ID, &t0); volatile unsigned long x = 0;
+      for (;;) { for (int i = 0; i < 100000; i++) x += i; clock_gettime(CLOCK_PROCESS_CPUTIME_ID, &t1);
+        if ((t1.tv_sec - t0.tv_sec) * 1000 + (t1.tv_nsec - t0.tv_nsec) / 1000000 >= v) break; } }
+    *(volatile int *)8 = 1;
+    _exit(0);
   } else if (!strcmp(c, "plant")) {
     // plant KIND PATH [TARGET] ... (triples; TARGET "-" when unused); exit = number of failures
     int fails = 0;
